@@ -42,10 +42,15 @@ def swept_failing(logpath, ranks, kind, failfile, **kw):
 class SownSweep:
     """A sweep as a crop sees it: combos sorted by argument NAME (cropping.py sorts them)."""
 
-    def __init__(self, sw, shuffle=False, via="combos"):
+    def __init__(self, sw, shuffle=False, via="combos", ctor_shuffle=None):
+        # via == "combos-default": the Crop is CONSTRUCTED with shuffle=ctor_shuffle and sow_combos is called
+        # without a shuffle argument (its default, False, then decides: sown and recorded unshuffled)
         self.sw, self.shuffle, self.via = sw, shuffle, via
+        self.ctor_shuffle = ctor_shuffle
+        if via == "combos-default":
+            self.shuffle = False
         # sow_combos sorts the combos by argument name; sow_cases keeps them as given
-        self.sorted_combos = sorted(sw.combos, key=lambda x: x[0]) if via == "combos" else list(sw.combos)
+        self.sorted_combos = sorted(sw.combos, key=lambda x: x[0]) if via != "cases" else list(sw.combos)
 
     def n(self):
         return self.sw.n_settings()
@@ -183,7 +188,9 @@ class CropRun:
             if kind == "sow":
                 _, sown, bs, nb = op
                 if self.crop is None:
-                    self.crop = self.new_crop(sown.sw, shuffle=sown.shuffle if sown.via == "cases" else False)
+                    self.crop = self.new_crop(sown.sw, shuffle=(sown.shuffle if sown.via == "cases" else
+                                                                sown.ctor_shuffle if sown.via == "combos-default"
+                                                                else False))
                 self.sown = sown
                 sw = sown.sw
                 if sown.via == "cases":
@@ -191,6 +198,11 @@ class CropRun:
                     self.crop.sow_cases(tuple(sw.case_args), [tuple(c) for c in sw.cases],
                                         combos=dict(sw.combos) or None, constants=sw.consts or None,
                                         verbosity=0, batchsize=bs, num_batches=nb)
+                elif sown.via == "combos-default":
+                    self.crop.sow_combos(dict(sw.combos) if sw.combos else None,
+                                         cases=sw.cases_dicts() if sw.cases else None,
+                                         constants=sw.consts or None, verbosity=0,
+                                         batchsize=bs, num_batches=nb)
                 else:
                     self.crop.sow_combos(dict(sw.combos) if sw.combos else None,
                                          cases=sw.cases_dicts() if sw.cases else None,
@@ -271,5 +283,5 @@ def coq_op(op):
 
 def describe_op(op):
     if op[0] == "sow":
-        return ["sow", op[1].sw.describe(), {"shuffle": op[1].shuffle, "via": op[1].via, "bs": op[2], "nb": op[3]}]
+        return ["sow", op[1].sw.describe(), {"shuffle": op[1].shuffle, "via": op[1].via, "ctor_shuffle": op[1].ctor_shuffle, "bs": op[2], "nb": op[3]}]
     return list(op)
